@@ -13,8 +13,9 @@
              Ignored or unchanged, cells that are not characters, zero-width
              characters; otherwise Face (if different from the tracked face),
              CursorTo (if different from the tracked cursor), then either a run
-             of blanks (EraseChars when longer than 4, which does not move the
-             cursor) or the character (advancing by its width).
+             of blanks (EraseChars when longer than 4 and the face has no underline,
+             strike or reverse attribute; it does not move the cursor) or the
+             character (advancing by its width).
      pass 3  every recorded image: Face, erase the rows of its rectangle,
              CursorTo, Image.
      then    back := front (glyphs resolved), front := default, marks := Empty.
@@ -88,7 +89,8 @@ Definition pass1 (o : oracle) (s : rstate) : p1 :=
 (* ---------- pass 2: what is painted ---------- *)
 Inductive paint :=
 | PChar (r c : nat) (f : face) (ch : N)        (* one character of width cw ch *)
-| PBlanks (r c : nat) (f : face) (n : nat).    (* n blank cells *)
+| PBlanks (r c : nat) (f : face) (n : nat)     (* n blank cells of face f *)
+| PErase (r c : nat) (f : face) (n : nat).     (* n cells erased under face f (pass 3; never produced by pass 2) *)
 
 (* number of following cells that continue a run of blanks started by [x] *)
 Fixpoint blank_run (x : cell) (news : list cell) (ms : list mark) : nat :=
@@ -140,15 +142,16 @@ Definition cur_known (t : tracked) (r c : nat) : bool :=
   match tcur t with Some (r', c') => Nat.eqb r r' && Nat.eqb c c' | None => false end.
 
 Definition emit (o : oracle) (t : tracked) (p : paint) : list cmd * tracked :=
-  let '(r, c, f) := match p with PChar r c f _ => (r, c, f) | PBlanks r c f _ => (r, c, f) end in
+  let '(r, c, f) := match p with PChar r c f _ | PBlanks r c f _ | PErase r c f _ => (r, c, f) end in
   let pre := (if face_known t f then [] else [CFace f])
              ++ (if cur_known t r c then [] else [CCursorTo r c]) in
   match p with
   | PChar _ _ _ ch => (pre ++ [CChar ch], mktracked (Some f) (Some (r, c + cw o ch)))
   | PBlanks _ _ _ n =>
-      if 4 <? n
+      if (4 <? n) && erasable o f
       then (pre ++ [CEraseChars n], mktracked (Some f) (Some (r, c)))
       else (pre ++ repeat (CChar space) n, mktracked (Some f) (Some (r, c + n)))
+  | PErase _ _ _ n => (pre ++ [CEraseChars n], mktracked (Some f) (Some (r, c)))
   end.
 
 Fixpoint emit_all (o : oracle) (t : tracked) (ps : list paint) : list cmd :=
